@@ -4,6 +4,7 @@ import json
 import os
 import re
 from lib import *
+import lib as _lib
 
 EXPLANATION = (
     "D1 panic-site inventory: every MIR Assert (bounds, overflow, division) and every call to a std API that panics on its argument values, or to core::panicking, in every hand-written body of the crate is listed; "
@@ -261,7 +262,6 @@ def discharge(ctx, body, p, ev, kind):
             return None
         if last in ("index", "index_mut") and ("[T]" in nm or "Vec" in nm) and agg_variant(ev.args[1]) and agg_variant(ev.args[1])[1] in ("RangeTo", "RangeFrom", "Range"):
             # byte/element slices cut at the collection's own length or at min(.., its length, ..): always in range
-            import lib as _lib
             c0 = _lib.coll(ev.args[0])
             a_ = agg_variant(ev.args[1])
 
@@ -294,6 +294,34 @@ def discharge(ctx, body, p, ev, kind):
                         and mentions(lp[1][1], lambda s: s == strip_refs(coll)) and is_call(hp, "::len") and (strip_refs(call_args(hp)[0]) == strip_refs(coll) or mentions(coll, lambda s: s == strip_refs(call_args(hp)[0]))):
                     return "G6-suffix-from-position"
             return None
+        if last == "index" and ("for str" in nm or "String" in nm) and _lib.canon_range(ev.args[0], ev.args[1]) is not None:
+            # a string cut at 0 / len / the first position where a predicate holds: s.find(pred) (always a character boundary), or
+            # s.bytes().position(pred) when pred holds for every non-ASCII byte (everything before the position is then ASCII)
+            S = content(ev.args[0])
+            lo_, hi_ = _lib.canon_range(ev.args[0], ev.args[1])
+
+            def bound_ok(b):
+                if b == LEN or const_int(b) == 0:
+                    return True
+                b0 = strip_refs(b)
+                if is_call(b0, "::len") and content(call_args(b0)[0]) == S:
+                    return True
+                if isinstance(b0, tuple) and b0 and b0[0] == "field" and b0[2] == 0 and isinstance(b0[1], tuple) and b0[1][0] == "downcast" and b0[1][2] == "Some":
+                    src = strip_refs(b0[1][1])
+                    if is_call(src, "str>::find", "str>::rfind") and content(call_args(src)[0]) == S:
+                        return True
+                    if is_call(src, "Iterator>::position", "::position") and len(call_args(src)) == 2:
+                        it = strip_refs(call_args(src)[0])
+                        while isinstance(it, tuple) and it and it[0] in ("loc", "refmut", "ref"):
+                            it = strip_refs(it[2] if it[0] == "loc" and len(it) > 2 else it[1])
+                        clo = strip_refs(call_args(src)[1])
+                        if is_call(it, "str>::bytes") and content(call_args(it)[0]) == S and isinstance(clo, tuple) and clo and clo[0] == "agg" and clo[1] == "closure":
+                            tbl = char_table(ctx.paths(clo[2]) or [], is_param=lambda t_: strip_refs(t_) == ("param", 2), domain=BYTE_DOMAIN)
+                            # all earlier bytes ASCII (pred holds on every non-ASCII byte), or the byte found is never a continuation byte
+                            return bool(tbl) and (all(tbl[chr(i)] is True for i in range(128, 256)) or all(tbl[chr(i)] is False for i in range(0x80, 0xC0)))
+                return False
+            if bound_ok(lo_) and bound_ok(hi_) and (const_int(lo_) == 0 or hi_ == LEN or is_call(strip_refs(hi_), "::len")):
+                return "G6-string-cut-at-first-match"
         if (last == "index" and ("for str" in nm or "String" in nm)) or (last == "split_at" and "str" in nm):
             # any slicing of a string at 0 / len / a position found by searching that string (+ the separator's length)
             if last == "split_at":
@@ -409,11 +437,22 @@ def canon_range(subject, rg):
     return ("agg", "adt", "std::ops::Range", "Range", (lo, hi), ("start", "end"))
 
 
+def canon_term(t, depth=0):
+    """the term with every slice expression inside it written as Range{lo, hi} (see canon_range): operands are compared up to that spelling"""
+    if not isinstance(t, tuple) or not t or depth > 40:
+        return t
+    if is_index_call(t) and len(call_args(t)) == 2:
+        a0 = canon_term(call_args(t)[0], depth + 1)
+        a1 = canon_range(a0, canon_term(call_args(t)[1], depth + 1))
+        return t[:3] + ((a0, a1),) + t[4:]
+    return tuple(canon_term(x, depth + 1) if isinstance(x, tuple) else x for x in t)
+
+
 def fingerprint(body, ev, kind):
     if ev.kind == "assert":
-        txt = kind + "|" + "|".join(named(body, m) for m in ev.mops)
+        txt = kind + "|" + "|".join(named(body, canon_term(m)) for m in ev.mops)
     else:
-        args = list(ev.args)
+        args = [canon_term(a) for a in ev.args]
         if kind.split("::")[-1] in ("index", "index_mut") and len(args) == 2:
             args[1] = canon_range(args[0], args[1])
         txt = kind + "|" + "|".join(named(body, a) for a in args)
